@@ -63,6 +63,21 @@ def gen_c08(tier, rng):
             # shows in what follows, as with any stream: those argument types stay out of the exception family)
             if rng.chance(1, 3) and not any(t in "hfa" for t, _ in combo):
                 out.append(case("fmt", "exc", rng.choice(["ctor", "raise"]), argf([tok(t, x) for t, x in combo])))
+    # the remaining built-in argument types, one per case (optionally followed by a string): a signed / unsigned char
+    # (int8_t / uint8_t) is a character, a bool is 1 / 0, the other integer types are numbers, a float has 6 digits
+    ext = [("b", "A"), ("b", "{"), ("b", "z"), ("u", "A"), ("u", "}"), ("u", "0"), ("u", "\xe9"), ("w", "A"), ("W", "A"),
+           ("W", "7"), ("B", "1"), ("B", "0"), ("S", "-32768"), ("S", "65"), ("T", "65535"), ("T", "48"),
+           ("U", "18446744073709551615"), ("U", "65"), ("L", "-9223372036854775808"), ("N", "4294967295"),
+           ("N", "65"), ("F", "1.5"), ("F", "0.1"), ("F", "-2.25")]
+    for t, x in ext:
+        for api in ("ext-pct", "ext-cpct", "ext-args"):
+            out.append(case("fmt", "str", api, hexs("{}"), tok(t, x)))
+            out.append(case("fmt", "str", api, hexs("<{}|{}>"), tok(t, x) + "," + tok("s", "{}")))
+            out.append(case("fmt", "str", api, hexs("{}{}"), tok(t, x)))
+        # exception messages: constructor and raise, (value, tail)
+        out.append(case("fmt", "exc", "ext-ctor", tok(t, x) + "," + tok("s", " tail")))
+    for t, x in ext:
+        out.append(case("fmt", "exc", "ext-raise", tok(t, x) + "," + tok("s", "head ")))
     for n in (4, 5, 6):
         for _ in range(20):
             out.append(case("fmt", "exc", rng.choice(["ctor", "raise"]),
@@ -93,6 +108,7 @@ C08 = Prop(
          "std::string, const char*, partly filled character arrays) in all pairs and sampled triples; exception messages through the constructor and "
          "raise(); seeded random formats of length <=30 incl. NUL/0xff. Non-trivial: the format has at least one "
          "placeholder (str) / more than one argument (exception message). Distinct = distinct case line. " \
+                "One-argument cases over the remaining built-in types (signed char, unsigned char, int8_t, uint8_t, bool, short, unsigned short, unsigned, long, unsigned long long, float), by value and as const lvalue, through %, args() and exception messages: a signed/unsigned char is its character, a bool 1/0. "
                 "Typed arguments include user types whose inserters leave sticky state (hex/showbase; fixed/precision 2) followed by numbers (format family only: an exception message is one stream), and doubles whose 6-digit text differs from their 17-digit text (0.1, 1e+06, 0.333333, -2.7) in both families.",
     harness=HARNESS, search=lambda dis, rng: gen_c08("thorough", rng),
     theorem_hint="NitroVerif.Props.C08.{str_spec,arity_exact,no_rescan,more_args_raise,fewer_args_raise,"
